@@ -20,14 +20,16 @@ func init() {
 			"skipBasicAuth can be true only under authToken!=nil; skipTokenAuth is the per-request authenticated marker, whose only constructor call is BasicAuth's success site (C17.skip-sound)",
 			"prefixChecker routes the /api prefix to the authenticated chain and everything else to the default handler (C17.routing)",
 			"the failure helpers answer 401 and the closure does not call next after them (C17.failed-is-401)",
+			"every way of reaching a 401 in the two auth closures carries a licensed reason (header not parsable, empty field, user not configured, constant-time comparison failed): no additional filter can reject a configured secret presented in standard form (C17.reject-sites)",
 		},
-		NotDec: []string{"completeness: that well-formed credentials always pass (header grammar, base64, spacing)", "go-swagger's raw-handler fallback when its handler field is nil (trusted generated code)", "path normalisation before the prefix test"},
+		NotDec: []string{"completeness beyond the absence of extra reject reasons: header grammar, base64, spacing handled by the library parsers", "go-swagger's raw-handler fallback when its handler field is nil (trusted generated code)", "path normalisation before the prefix test"},
 	})
 }
 
 func runC17(e *Env) {
 	c17Chain(e)
 	c17PassSites(e)
+	c17RejectSites(e)
 	c17SkipSound(e)
 	c17Routing(e)
 }
@@ -227,6 +229,116 @@ func nextCalls(h *ssa.Function) []ssa.CallInstruction {
 }
 
 // ctcEq1 finds a literal ConstantTimeCompare(a,b) == 1 and returns the call.
+// c17RejectSites: the dual of pass-sites, for the half "a request carrying the
+// configured credentials in standard form always passes". Every way of reaching
+// a 401 answer in an auth closure must carry one of the licensed reasons for
+// rejecting - the header could not be parsed (r.BasicAuth() !ok, fewer fields
+// than needed), the presented field is empty, the user is not configured, or
+// the constant-time comparison with the configured secret failed. Any other
+// reason (a syntax filter on the presented secret, a length cap, ...) rejects
+// some configured secret presented in standard form.
+func c17RejectSites(e *Env) {
+	r := e.R
+	r.Rule("C17.reject-sites", "RC", "every way to a 401 carries a licensed reason", 4)
+	for _, ctor := range []struct{ name, helper string }{{"BasicAuth", "basicAuthFailed"}, {"TokenAuth", "tokenAuthFailed"}} {
+		fn := e.FnQuiet(mwRel, ctor.name)
+		if fn == nil {
+			continue
+		}
+		h := innermostHandler(fn)
+		if h == nil {
+			continue
+		}
+		ff := e.Facts(h)
+		for _, ci := range ir.CallsIn(h, func(c *ssa.CallCommon) bool { return c.StaticCallee() != nil && c.StaticCallee().Name() == ctor.helper }) {
+			dnf, ok := ir.ReachingCondition(h.Blocks[0], ci.Block(), 32)
+			if !ok {
+				r.Unknown(ctor.name+": reasons for answering 401", e.InstrPos(ci), "reaching condition too large")
+				continue
+			}
+			var bad []string
+			for _, cj := range dnf {
+				for _, conj := range ff.ExpandDNFRegion(h.Blocks[0], []ir.Lit(cj)) {
+					lits := ir.NormalizeAll(conj)
+					licensed := false
+					for _, l := range lits {
+						if c17LicensedReject(e, l) {
+							licensed = true
+						}
+					}
+					if !licensed {
+						bad = append(bad, "{"+strings.Join(e.RenderN(lits), " ; ")+"}")
+					}
+				}
+			}
+			r.Check(len(dnf) > 0 && len(bad) == 0, ctor.name+": 401 only for an unparsable header, an empty field, an unknown user or a failed comparison with the configured secret", e.InstrPos(ci),
+				"a request is rejected for a reason that is not a mismatch with the configured credentials: some configured secret, presented in the standard form, is answered 401 (the handler is never reached)",
+				"ways to this 401 without a licensed reason: "+strings.Join(bad, " | "))
+		}
+	}
+}
+
+func c17LicensedReject(e *Env, l ir.NLit) bool {
+	fromHeaderSplit := func(v ssa.Value) bool {
+		fl := &ir.Flow{C: e.C, Through: func(c *ssa.Call) []int {
+			if ir.IsCallTo(&c.Call, "strings.Split", "strings.SplitN", "strings.Fields", "strings.TrimPrefix", "strings.TrimSpace") {
+				return []int{0}
+			}
+			return nil
+		}, Source: func(x ssa.Value) bool {
+			cc, isC := x.(*ssa.Call)
+			return isC && ir.IsCallTo(&cc.Call, "(net/http.Header).Get")
+		}}
+		return fl.Any(v)
+	}
+	switch l.Kind {
+	case "val":
+		if l.Pol {
+			return false
+		}
+		if ex, ok := ir.Resolve(l.V).(*ssa.Extract); ok {
+			// !ok of r.BasicAuth()
+			if cc, isC := ex.Tuple.(*ssa.Call); isC && ir.IsCallTo(&cc.Call, "(*net/http.Request).BasicAuth") && ex.Index == 2 {
+				return true
+			}
+			// user not configured: comma-ok map lookup false
+			if lk, isL := ex.Tuple.(*ssa.Lookup); isL && lk.CommaOk && ex.Index == 1 {
+				return true
+			}
+		}
+	case "cmp":
+		// ConstantTimeCompare(...) != 1
+		if c, ok := ir.Resolve(l.X).(*ssa.Call); ok && ir.IsCallTo(&c.Call, "crypto/subtle.ConstantTimeCompare") {
+			if k, isK := ir.ConstInt(l.Y); isK && ((l.Op == token.NEQ && k == 1) || (l.Op == token.EQL && k == 0)) {
+				return true
+			}
+		}
+		// len(fields of the header) < k
+		if l.Op == token.LSS || l.Op == token.LEQ {
+			if x, isLen := lenArg(l.X); isLen && fromHeaderSplit(x) {
+				if _, isK := ir.ConstInt(l.Y); isK {
+					return true
+				}
+			}
+		}
+		// len(header field) == 0
+		if l.Op == token.EQL {
+			if x, isLen := lenArg(l.X); isLen && fromHeaderSplit(x) {
+				if k, isK := ir.ConstInt(l.Y); isK && k == 0 {
+					return true
+				}
+			}
+		}
+		// a header field is empty
+		if l.Op == token.EQL {
+			if s, isS := ir.ConstString(l.Y); isS && s == "" && fromHeaderSplit(l.X) {
+				return true
+			}
+		}
+	}
+	return false
+}
+
 func ctcEq1(lits []ir.NLit) *ssa.Call {
 	for _, l := range lits {
 		if l.Kind == "cmp" && l.Op == token.EQL {
